@@ -15,12 +15,14 @@ PROP = 'C04'
 
 def run(tier):
     rep = core.Report(PROP, tier, 'model_checking',
-        'states = canonical contexts (algorithm, forced transform, message pattern, absorbed length n); transitions = '
-        'every update(next c bytes, c=0..L-n, source address = a mod 64) and every final, each executed on the real '
-        'context with its dead bytes set to 0x00 and again to 0xA5; a transition counts as non-trivial when c>0 and the '
-        'successor equals the single-update context; finals/one-shots when the digest equals the reference and the '
-        'context is wiped.  quick: L<=2 blocks+1, 7 alignments, 9 builds; thorough: L=4 blocks+1, 7 alignments in 53 builds, '
-        'all 64 alignments in the all-transforms build')
+        'states = canonical contexts (algorithm, forced transform, message pattern, absorbed length n); transitions = every '
+        'update(next c bytes, c=0..L-n, source address = a mod 64, exact-size heap block) and every final, executed on the real '
+        'context with its dead bytes overwritten (0x00 and 0xA5; both for the first alignments of the list, alternating after); '
+        'oracle: successor == the single-update context of n+c bytes, final == reference digest of the prefix and context wiped; '
+        'one-shot/hex entry points on every prefix; length-encoding carries from preset byte counters.  quick: 9 builds, counter '
+        'pattern L=2 blocks+1 x alignments {0,1,3,4,8,16,31,32,63}, other three patterns L=1 block+1 x {0,1,31}; thorough: the '
+        'whole build matrix with L=3 blocks+1 (other patterns 2 blocks+1), plus the all-transforms build with every pattern at '
+        'L=4 blocks+1 and all 64 alignments for the counter pattern.  A transition is non-trivial when c>0 and it was confluent')
     rep.assumptions = [
         'hashlib (OpenSSL) is the reference for MD5, SHA-1, SHA-224/256/384/512',
         'Streebog reference = the construction of the standard written out in harness/C04/ref_streebog.c over the tables pi, tau, A, C '
@@ -28,5 +30,7 @@ def run(tier):
         '64 zero bytes, three short strings, RFC 7836 HMAC), which the reference must reproduce in this run',
         'the sandbox CPU implements every instruction set a forced transform needs (sse4.1, avx2, sha_ni)',
         'message contents are the four fixed patterns; a value-dependent defect that these and the published vectors miss is outside the bound',
+        'preset-counter cases: the reference is the standard\'s padding rule applied to (IV, data, length field = (P+m)*8 bits), computed by '
+        'compression functions written out in gen_ref.py (constants derived from primes / sin) and validated against hashlib in the same run',
     ]
     matrix.run_matrix(rep, PROP, tier, 'harness/C04/h_c04.c', 'h_c04')
